@@ -1425,11 +1425,26 @@ func ruleOwnListenerOnly(c *Ctx, rid string) {
 				return
 			}
 			owner, f, _, ok := fieldOf(st.Addr)
+			if !ok {
+				// a store through a pointer taken from a table of the listener fields
+				// (`*ep.listener = l` with ep from {listener: &server.portListener}, ...)
+				if _, isFA := st.Addr.(*ssa.FieldAddr); !isFA {
+					if fs, okT := pointerTargets(st.Addr); okT {
+						for _, t := range fs {
+							if t == "redis.Server.portListener" || t == "redis.Server.tlsPortListener" {
+								owner, f, ok = "redis.Server", strings.TrimPrefix(t, "redis.Server."), true
+							}
+						}
+					}
+				}
+			}
 			if !ok || owner != "redis.Server" || (f != "portListener" && f != "tlsPortListener" && f != "tlsConfig") {
 				return
 			}
-			if _, isAlloc := strip(st.Addr.(*ssa.FieldAddr).X).(*ssa.Alloc); isAlloc {
-				return
+			if fa, isFA := st.Addr.(*ssa.FieldAddr); isFA {
+				if _, isAlloc := strip(fa.X).(*ssa.Alloc); isAlloc {
+					return
+				}
 			}
 			nst++
 			if reach[fn] {
@@ -1440,7 +1455,7 @@ func ruleOwnListenerOnly(c *Ctx, rid string) {
 		})
 	}
 	c.count("listener-field-stores", nst)
-	c.floor("listener-field-stores", 3)
+	c.floor("listener-field-stores", 1)
 }
 
 // nilMeansAuthenticated: h takes a connection, calls AuthManager.Authenticate on it, and returns
